@@ -622,10 +622,6 @@ impl Engine for Pfx07 {
         json!({"real": ["App::prefixed_storage(_mut)", "App::prefixed_multilevel_storage(_mut)", "PrefixedStorage / ReadonlyPrefixedStorage", "length_prefixed", "namespace_helpers", "MockStorage root"], "stub": [], "model": ["one raw-key BTreeMap; view = filter+strip"]})
     }
 
-    fn matches_signature(&self, case: &Case, v: &Violation, sig: &Value) -> bool {
-        let _ = (case, v, sig);
-        false
-    }
 }
 
 fn short_op(op: &Op) -> String {
